@@ -24,6 +24,24 @@ func C20(p *engine.Prog, r *engine.Report) {
 	c20R2(p, r)
 	c20R3(p, r)
 	c20R4(p, r)
+	// ---------------- R5: one forwarding goroutine per holder — a goroutine started in a loop does not
+	// capture a variable the loop re-assigns (module language version < 1.22: one variable for all iterations)
+	{
+		scanned := 0
+		for _, pkg := range []string{"protocol", "common/pushpull"} {
+			for _, f := range funcsOfPkg(p, pkg) {
+				if f.Blocks == nil || isTestish(p.Pos(f.Pos())) {
+					continue
+				}
+				scanned++
+				for _, c := range sharedLoopVarCaptures(f) {
+					r.Bad("C20-R5", uniq(r, engine.RelName(f)+"|goroutine started in a loop captures "+c.Var.Comment), p.InstrPos(c.At), "the goroutine reads a loop variable that all iterations share: every goroutine started by this loop works with the value of the last iteration — e.g. every tracker's requests are forwarded for one holder only, announcers of all other item types are never asked")
+				}
+			}
+		}
+		r.OK("C20-R5", "protocol, common/pushpull|goroutines started in loops capture no shared loop variable", "", itoa(int64(scanned))+" functions scanned")
+	}
+
 }
 
 // hasGuards: branches on holder.Has(x) where x is `hash` (Origin-equal or the same access path); pass =
